@@ -2,17 +2,21 @@
 (* Vector enumeration / behaviour generation / model-checking wrapper for Validator.            *)
 (*  - defines the configuration and request sets that are explored (constant Full widens them), *)
 (*  - adds `out`: the JSON description of the step just taken with the contract's prediction.   *)
-(* Three uses: (1) enumeration: Now0 = MaxNow = 4, MaxPresent = 1: every state after one        *)
+(* Four uses: (1) enumeration: Now0 = MaxNow = 4, MaxPresent = 1: every state after one        *)
 (* Present is one vector (cfg, req, predicted verdict), exported with -dump; the single-mutation *)
 (* theorem and the closure of the vector set under mutation are invariants of that run;         *)
 (* (2) clock: jwt-only configurations, tokens with every (nbf, exp) in a small range, the clock *)
 (* advancing between presentations: temporal theorems + behaviours for replay;                  *)
 (* (3) etcd: basicAuth in ETCD mode, snapshots of the credential table delivered between        *)
-(* presentations (removal, password change, empty table): temporal theorems + behaviours.       *)
+(* presentations (removal, password change, empty table): temporal theorems + behaviours;       *)
+(* (4) reconf: hot updates (Reconfigure: new spec, new generation built with Inherit) between    *)
+(* presentations: JWT secret rotated / algorithm changed / cookie carrier switched, access keys *)
+(* removed / re-keyed / added, Basic users changed (FILE and ETCD), methods switched on and off, *)
+(* also the unchanged spec: temporal theorems + behaviours.                                      *)
 EXTENDS Validator, Json
 
 CONSTANTS Full,      \* BOOLEAN: the wide sets (thorough tier)
-          Mode       \* "enum" | "clock" | "etcd"
+          Mode       \* "enum" | "clock" | "etcd" | "reconf"
 
 VARIABLE out
 
@@ -43,6 +47,10 @@ ComboCfgs ==
 EnumCfgs  == HdrCfgs \cup JwtCfgs \cup SigCfgs \cup BasicCfgs \cup ComboCfgs
 ClockCfgs == {C("off", J("HS256", k), SOff, "off") : k \in BOOLEAN}
 EtcdCfgs  == {C("off", JOff, SOff, "etcd"), C("both", JOff, SOff, "etcd")}
+ReconfCfgs == {C("off", J("HS256", FALSE), SOff, "off"), C("off", J("HS256", TRUE), SOff, "off"),
+               C("off", JOff, S(FALSE, FALSE), "off"), C("off", JOff, S(TRUE, TRUE), "off"),
+               C("off", JOff, SOff, "file"), C("off", JOff, SOff, "etcd"),
+               C("off", J("HS384", TRUE), SOff, "file")}
 
 ----------------------------------------------------------------------------------------------
 (* requests *)
@@ -77,10 +85,18 @@ JwtReqs(c) ==
 
 Muts == {NoMut} \cup {Mut1(p) : p \in Parts}
         \cup (IF Full THEN {[x \in Parts |-> x = p \/ x = q] : p \in {"iheader", "body"}, q \in Parts} ELSE {})
+(* the key classes of the first generation are crossed with everything; the others (second       *)
+(* secret of a known id, empty id / empty secret) with carrier, body and - when Full - age and    *)
+(* the single mutations                                                                           *)
+SgKeys1 == {"id0", "id1", "id0wrongsecret", "unknown"}
+SgKeys2 == SgKeys \ SgKeys1
 SgFor(c) ==
-    {Sg("header", k, a, "-", c.sig.excl, b, m) : k \in SgKeys, a \in SgAges, b \in BOOLEAN, m \in Muts}
+    {Sg("header", k, a, "-", c.sig.excl, b, m) : k \in SgKeys1, a \in SgAges, b \in BOOLEAN, m \in Muts}
     \cup {Sg("query", k, a, pe, c.sig.excl, b, m) :
-             k \in SgKeys, a \in SgAges, pe \in {"live", "expired"}, b \in BOOLEAN, m \in Muts}
+             k \in SgKeys1, a \in SgAges, pe \in {"live", "expired"}, b \in BOOLEAN, m \in Muts}
+    \cup {Sg(ca, k, a, IF ca = "query" THEN "live" ELSE "-", c.sig.excl, b, m) :
+             ca \in {"header", "query"}, k \in SgKeys2, a \in (IF Full THEN SgAges ELSE {"fresh"}), b \in BOOLEAN,
+             m \in (IF Full THEN {NoMut} \cup {Mut1(p) : p \in Parts} ELSE {NoMut, Mut1("iheader")})}
     \cup {Sg(ca, "id0", "fresh", IF ca = "query" THEN "live" ELSE "-", ~c.sig.excl, b, m) :
              ca \in {"header", "query"}, b \in BOOLEAN, m \in {NoMut, Mut1("body"), Mut1("path")}}
 WellFormedSg(s) == (s.pexp = "expired" => s.age # "future")   \* a presigned URL from the future cannot have expired
@@ -119,7 +135,7 @@ ComboBase(c) ==
     IN  {[[r EXCEPT !.hv = hv] EXCEPT !.ck = ck] : r \in {[x EXCEPT !.sg = s] : x \in plain, s \in qsg}
                                                          \cup {R(<<>>, "sig", NoTok, NoTok, s, NoBs) : s \in hsg},
                                                    hv \in hvs, ck \in cks}
-ComboReqs(c) == ComboBase(c) \cup UNION {Mutants(c, r) : r \in {x \in ComboBase(c) : Verdict(c, x, Env(Now0, Users0)) = "accept"}}
+ComboReqs(c) == ComboBase(c) \cup UNION {Mutants(c, r) : r \in {x \in ComboBase(c) : Verdict(c, x, Env(c, Now0, Users0, Mat0)) = "accept"}}
 
 (* clock mode: one token, every (nbf, exp) in a small range, in the header or in the cookie *)
 ClockTimes == {-1} \cup 1..3
@@ -139,10 +155,51 @@ EtcdReqs(c) ==
         u \in KnownUsers, v \in {"v1", "v2"}, w \in {"right", "wrong", "rightColonX"}}
     \cup {R(IF c.hdr = "off" THEN <<>> ELSE <<"inValues">>, "basic", NoTok, NoTok, NoSg, Bs("unknown", "v1", "wrong", TRUE))}
 
-GenCfgs == IF Mode = "clock" THEN ClockCfgs ELSE IF Mode = "etcd" THEN EtcdCfgs ELSE EnumCfgs
+(* reconf mode.  Requests: credentials made with either JWT secret and algorithm, with every     *)
+(* access key class, of every user in both password versions; a request keeps its meaning when   *)
+(* the configuration changes under it                                                            *)
+RcToks == {Tok(k, a, a, -1, -1, "absent", "none") : k \in {"k0", "k1"}, a \in {"HS256", "HS384"}}
+          \cup {Tok("k0", "HS256", "HS256", -1, 6, "past", "none"), Tok("k1", "HS256", "HS256", -1, -1, "absent", "sig")}
+RcSgs(c) == {Sg(ca, k, "fresh", IF ca = "query" THEN "live" ELSE "-", c.sig.excl, ca = "header", m) :
+                ca \in {"header", "query"}, k \in SgKeys \ {"noidsecret", "id0nosecret"}, m \in {NoMut, Mut1("query")}}
+RcBss == {Bs(u, v, w, TRUE) : u \in KnownUsers, v \in {"v1", "v2"}, w \in {"right", "wrong"}}
+         \cup {Bs("unknown", "v1", "wrong", TRUE)}
+ReconfReqs(c) ==
+    IF c.sig.on
+    THEN {R(<<>>, IF s.carrier = "header" THEN "sig" ELSE "none", NoTok, NoTok, s, NoBs) : s \in RcSgs(c)}
+    ELSE IF c.basic = "etcd" THEN {R(<<>>, "basic", NoTok, NoTok, NoSg, b) : b \in RcBss}
+    ELSE   \* jwt and/or basicAuth FILE: methods come and go, so the requests carry one or both credentials
+         {R(<<>>, "bearer", t, NoTok, NoSg, NoBs) : t \in RcToks}
+         \cup {R(<<>>, "none", NoTok, t, NoSg, NoBs) : t \in RcToks}          \* cookie: a carrier only while configured
+         \cup {R(<<>>, "none", NoTok, NoTok, NoSg, NoBs)}
+         \cup {R(<<>>, "basic", NoTok, NoTok, NoSg, b) : b \in RcBss}
+         \cup {R(<<>>, "basic", NoTok, Tok(k, "HS384", "HS384", -1, -1, "absent", "none"), NoSg, Bs("uPlain", v, "right", TRUE)) :
+                  k \in {"k0", "k1"}, v \in {"v1", "v2"}}
+(* hot updates: the enabled methods get new material (every JWT secret x {HS256, HS384} x cookie  *)
+(* carrier; every access key table with at least one key; user tables); a configuration with jwt *)
+(* and basicAuth may drop one of the two, one with jwt (cookie) or basicAuth FILE alone may gain  *)
+(* the other.  The unchanged spec is one of the updates (the pipeline re-inherits every filter   *)
+(* when anything in the pipeline changes).                                                       *)
+RcTables == {t \in UserTables : t["uColon"] = "v1" \/ \A u \in KnownUsers : t[u] = "gone"}
+GenRecfgs(c, e) ==
+    IF Mode # "reconf" THEN {}
+    ELSE LET js == IF c.jwt.on THEN {J(al, ck) : al \in {"HS256", "HS384"}, ck \in BOOLEAN}
+                                    \cup (IF c.basic # "off" THEN {JOff} ELSE {})
+                   ELSE IF c.basic = "file" THEN {JOff, J("HS384", TRUE)} ELSE {JOff}
+             bs == IF c.basic # "off" THEN {c.basic} \cup (IF c.jwt.on THEN {"off"} ELSE {})
+                   ELSE IF c.jwt.on /\ c.jwt.cookie THEN {"off", "file"} ELSE {"off"}
+         IN {x \in {[cfg |-> [c EXCEPT !.jwt = j, !.basic = b], mat |-> [jsec |-> k, aks |-> a], users |-> u] :
+                      j \in js, b \in bs, k \in (IF c.jwt.on THEN {"k0", "k1"} ELSE {e.jsec}),
+                      a \in (IF c.sig.on THEN {t \in AkTables : \E i \in AkIds : t[i] # "gone"} ELSE {e.aks}),
+                      u \in (IF c.basic # "off" THEN RcTables ELSE {e.users})} :
+                \E m \in Methods : Enabled(x.cfg, m)}
+
+GenCfgs == IF Mode = "clock" THEN ClockCfgs ELSE IF Mode = "etcd" THEN EtcdCfgs
+           ELSE IF Mode = "reconf" THEN ReconfCfgs ELSE EnumCfgs
 GenReqs(c) ==
     IF Mode = "clock" THEN ClockReqs(c)
     ELSE IF Mode = "etcd" THEN EtcdReqs(c)
+    ELSE IF Mode = "reconf" THEN ReconfReqs(c)
     ELSE IF c \in ComboCfgs THEN ComboReqs(c)
     ELSE IF c.hdr # "off" THEN HdrReqs(c)
     ELSE IF c.jwt.on THEN JwtReqs(c)
@@ -152,25 +209,51 @@ GenReqs(c) ==
 ----------------------------------------------------------------------------------------------
 Describe ==   \* of the step just taken (primed variables)
     IF n' = n + 1
-    THEN [a |-> "present", cfg |-> cfg', now |-> now', users |-> users', req |-> req',
+    THEN [a |-> "present", cfg |-> cfg', mat |-> mat', now |-> now', users |-> users', req |-> req',
           v |-> [m \in Methods |-> V(cfg', req', at', m)], exp |-> Verdict(cfg', req', at'),
           impl |-> [pinned |-> ImplRes(cfg', req', at', FALSE), repaired |-> ImplRes(cfg', req', at', TRUE)]]
     ELSE IF ns' = ns + 1 THEN [a |-> "sync", users |-> users']
+    ELSE IF nr' = nr + 1 THEN [a |-> "reconf", cfg |-> cfg', mat |-> mat', users |-> users']
     ELSE [a |-> "adv", d |-> now' - now, now |-> now']
 
-GInit == Init /\ out = ToJson([a |-> "init", cfg |-> cfg, now |-> now, users |-> users])
+GInit == Init /\ out = ToJson([a |-> "init", cfg |-> cfg, mat |-> mat, now |-> now, users |-> users])
 GNext == Next /\ out' = ToJson(Describe)
 GSpec == GInit /\ [][GNext]_<<vars, out>>
 (* clock behaviours for replay: the request presented first is presented again and again while   *)
 (* the clock advances (a random walk over all requests would hardly ever present a token twice)  *)
 (* ... and that first request is one the contract accepts in SOME environment (at some time / for *)
 (* some user table), so that the behaviour shows acceptance turning into rejection and back      *)
-Interesting(c, r) == \E t \in Now0..MaxNow, us \in (IF c.basic = "etcd" THEN UserTables ELSE {Users0}) :
-                        Verdict(c, r, Env(t, us)) = "accept"
-CNext == GNext /\ (n' = n + 1 => IF n > 0 THEN req' = req ELSE Interesting(cfg, req'))
+(* (reconf: in the first generation or in one that a single hot update leads to)                 *)
+Interesting(c, r) ==
+    \/ \E t \in Now0..MaxNow, us \in (IF c.basic = "etcd" THEN UserTables ELSE {Users0}) :
+          Verdict(c, r, Env(c, t, us, Mat0)) = "accept"
+    \/ \E x \in GenRecfgs(c, Env(c, Now0, Users0, Mat0)) : Verdict(x.cfg, r, Env(x.cfg, Now0, x.users, x.mat)) = "accept"
+(* reconf behaviours: [switch to a request, hot update(s), the same request again] three times; the *)
+(* request switched to is one the running generation must accept (1st, 3rd) or one that it or a   *)
+(* generation one update away accepts (2nd); one update between the two presentations, after the *)
+(* second switch one or two.  (A random walk would spend its updates in a row, there being many  *)
+(* more of them than requests, and start from a request that is rejected.)                       *)
+RcShape ==
+    /\ (n' = n + 1 =>
+          IF n % 2 = 0
+          THEN IF n = 2 THEN Interesting(cfg, req') ELSE Verdict(cfg, req', Cur) = "accept"
+          ELSE req' = req /\ nr >= (n + 1) \div 2)
+    /\ (nr' = nr + 1 => n % 2 = 1 /\ nr < (IF n = 3 THEN 3 ELSE (n + 1) \div 2))
+(* the replay does not use the observation a behaviour carries: one representative per verdict   *)
+(* (so that the walk chooses uniformly among requests, not among (request, observation) pairs)  *)
+Canon == n' = n + 1 => res'.acc \/ (res'.status = 401 /\ res'.intact)
+CNext == /\ Next
+         /\ Canon                                                                     \* (before the costly description)
+         /\ IF Mode = "reconf" THEN RcShape
+            ELSE (n' = n + 1 => IF n > 0 THEN req' = req ELSE Interesting(cfg, req'))
+         /\ out' = ToJson(Describe)
 CSpec == GInit /\ [][CNext]_<<vars, out>>
 (* the same behaviours without the cost of describing them (model checking only) *)
 MSpec == Init /\ out = "" /\ [][Next /\ UNCHANGED out]_<<vars, out>>
+(* ... and with the first request presented again (reconf mode: the theorems about hot updates are *)
+(* about one request before and after; every (configuration, material, table, request) is still  *)
+(* reached, but not every PAIR of requests)                                                      *)
+RSpec == Init /\ out = "" /\ [][Next /\ UNCHANGED out /\ (n' = n + 1 /\ n > 0 => req' = req)]_<<vars, out>>
 
 (* every single mutation of a not yet mutated request (carrying one token at most) that must be *)
 (* accepted is itself one of the enumerated vectors, i.e. it is executed on the real code from  *)
